@@ -399,7 +399,31 @@ class Program:
         self.ints = []       # internal Fun (index = Coq index; only lower indices are called)
         self.exts = []       # external Fun
 
-    def vy(self):
+    def reachable_ints(self):
+        seen = set()
+
+        def ve(e):
+            if e.k == "call" and e.id not in seen:
+                seen.add(e.id)
+                for s in self.ints[e.id].body:
+                    vs(s)
+            for c in e_children(e):
+                ve(c)
+
+        def vs(s):
+            for e in s_exprs(s):
+                ve(e)
+            for b in s_blocks(s):
+                for x in b:
+                    vs(x)
+        for f in self.exts:
+            for s in f.body:
+                vs(s)
+        return seen
+
+    def vy(self, prune=False):
+        """prune=True: omit internal functions no external function reaches (for reports; the Coq term is not pruned)"""
+        keep = self.reachable_ints() if prune else None
         out = []
         for st in self.structs:
             out.append(f"struct {st[1]}:")
@@ -418,7 +442,10 @@ class Program:
         for name, t in self.tra:
             out.append(f"{name}: transient({ty_vy(t)})")
         out.append("")
-        for f in self.ints + self.exts:
+        for i, f in enumerate(self.ints):
+            if keep is None or i in keep:
+                f.vy(out)
+        for f in self.exts:
             f.vy(out)
         return "\n".join(out)
 
